@@ -114,6 +114,39 @@ def _bind_lambda(fv, st, lam):
     return names, consts
 
 
+def _pattern_ok(t):
+    """z3 rejects (with a warning on stderr) patterns containing lambdas or logical / if-then-else operators"""
+    bad = (z3.Z3_OP_ITE, z3.Z3_OP_AND, z3.Z3_OP_OR, z3.Z3_OP_NOT, z3.Z3_OP_IMPLIES, z3.Z3_OP_EQ, z3.Z3_OP_DISTINCT, z3.Z3_OP_LE, z3.Z3_OP_GE, z3.Z3_OP_LT, z3.Z3_OP_GT)
+    seen = set()
+    todo = [t]
+    while todo:
+        x = todo.pop()
+        if x.get_id() in seen:
+            continue
+        seen.add(x.get_id())
+        if z3.is_quantifier(x):
+            return False
+        if z3.is_app(x):
+            if x.decl().kind() in bad:
+                return False
+            todo.extend(x.children())
+    return True
+
+
+def _clean_patterns(pats):
+    out = []
+    for p_ in pats:
+        terms = [p_] if z3.is_expr(p_) else None
+        try:
+            if terms is None:
+                out.append(p_)  # MultiPattern objects: keep (validated by z3)
+            elif all(_pattern_ok(t) for t in terms):
+                out.append(p_)
+        except Exception:
+            pass
+    return out
+
+
 def d_forall(E, fv, st, node, prog):
     args = node.args
     if len(args) == 3:
@@ -155,6 +188,7 @@ def d_forall(E, fv, st, node, prog):
                 v = fv.ev(p, s, False)
                 terms.append(v.e if isinstance(v, (SInt, SBool)) else v.v)
             pats.append(z3.MultiPattern(*terms) if len(terms) > 1 else terms[0])
+    pats = _clean_patterns(pats)
     if pats:
         return SBool(z3.ForAll(consts, body, patterns=pats))
     return SBool(z3.ForAll(consts, body))
@@ -195,6 +229,7 @@ def d_forall_arr(ndim):
                         extra.append(v.ninf)  # extended-real spec: either component triggers
                 pats.append(z3.MultiPattern(*terms) if len(terms) > 1 else terms[0])
                 pats.extend(extra)
+        pats = _clean_patterns(pats)
         if pats:
             try:
                 return SBool(z3.ForAll(consts, body, patterns=pats))
